@@ -633,6 +633,25 @@ class Sim:
             except Exception as e:  # noqa
                 self.obs.append(f"RAISE stop {type(e).__name__}")
             self.report_writes()
+        elif op == "stopin":
+            # stopin <timeout> <dt>: a forced stop() called by another thread while the I/O loop sleeps in select(); the
+            # select timeout (dt seconds) has passed when it returns, and the loop finishes the pass it is in
+            th = n._connection_thread
+            dt = int(t[2])
+
+            def hook():
+                self.env.now += dt
+                th.join = lambda timeout=None: None
+                try:
+                    n.stop(wait_timeout=int(t[1]), force=True)
+                    self.obs.append("STOPPED")
+                except Exception as e:  # noqa
+                    self.obs.append(f"RAISE stop {type(e).__name__}")
+            self.env.during_select = hook
+            self.io_iteration()
+            self.io_iteration()
+            self.settle()
+            self.report_writes()
         else:
             raise ValueError("unknown event " + ev)
         self.observe()
